@@ -7,6 +7,29 @@ from .. import d_keyedset as D
 DEVS = ["from_iterable_drops_config"]
 
 
+def _table(job):
+    return D.run_table(job)
+
+
+def _random(job):
+    return D.run_random(job)
+
+
+def _replay(e, detail):
+    ok = e["a"].get("o", {}).get("kind", "")
+    return ({"family": "keyedset", "flavour": e["flavour"], "cfg": e["cfg"], "a": e["a"], "pre": e["pre"]["s"],
+             "post": e["post"]["s"], "res": e["res"], "ret": e["ret"], "hid": e.get("hid"), "seq": e.get("seq")},
+            f"op={e['a']['op']} flavour={e['flavour']} typed={e['cfg']['typed']} enforce={e['cfg']['enforce']} operand={ok}")
+
+
+def _key(e):
+    return [e["cfg"], e["flavour"], e["pre"]["s"], e["a"], e.get("hid"), e.get("seq")]
+
+
+def _nontrivial(e):
+    return e["post"]["s"] != e["pre"]["s"] or e["res"] != "ok" or bool(e["ret"])
+
+
 def cfg_text(keys, payloads, maxlen, enforce, dev=""):
     ks = ", ".join(f'"{k}"' for k in keys)
     return f"""SPECIFICATION Spec
@@ -39,7 +62,7 @@ def main(tier):
             for enforce in (False, True):
                 p = pipeline.write_cfg(tmp, f"{label}-{enforce}.cfg", cfg_text(keys, pays, ml, enforce))
                 r = pipeline.mc_run(rep, "KeyedSet", p, label=f"{label}/enforce={enforce}", workers=8)
-                states = [s["s"] for s in r["states"]]
+                states = sorted((s["s"] for s in r["states"]), key=common.canon)
                 acts = r["acts"]
                 if not thorough:
                     # quick: every mutator/read, but binary operands thinned to a deterministic half
@@ -49,31 +72,25 @@ def main(tier):
                         for ch in common.chunks(states, 4):
                             jobs.append((fl, typed, enforce, ch, acts))
         pipeline.deviation_runs(rep, "KeyedSet", lambda d: cfg_text(keys, [0, 1], 3, False, d), DEVS)
-        events = []
-        for o in pipeline.pmap(D.run_table, jobs):
-            events += o
-        n_table = len(events)
+        rep.mark("mc")
+        r1 = pipeline.run_judged(_table, jobs, "J_KeyedSet", replay_fn=_replay, key_fn=_key, nontrivial_fn=_nontrivial, chunk=25000)
+        rep.mark("table")
         rjobs = []
         for fl in D.FLAVOURS:
             for typed in (False, True):
                 for enforce in (False, True):
                     for w in range(4 if thorough else 1):
                         rjobs.append((fl, typed, enforce, common.seed() * 1000 + w, 300 if thorough else 40, 60, 10, 2))
-        for o in pipeline.pmap(D.run_random, rjobs):
-            events += o
-        res = tla.judge("J_KeyedSet", events, chunk=25000, jobs=common.jobs())
-        for gi, clause, detail in res["bad"]:
-            e = events[gi]
-            replay = {"family": "keyedset", "flavour": e["flavour"], "cfg": e["cfg"], "a": e["a"], "pre": e["pre"]["s"],
-                      "post": e["post"]["s"], "res": e["res"], "ret": e["ret"], "hid": e.get("hid"), "seq": e.get("seq")}
-            ok = e["a"].get("o", {}).get("kind", "")
-            rep.violation(clause, replay, f"op={e['a']['op']} flavour={e['flavour']} typed={e['cfg']['typed']} enforce={e['cfg']['enforce']} operand={ok}")
-        distinct = len({common.canon([e["cfg"], e["flavour"], e["pre"]["s"], e["a"]]) for e in events
-                        if e["post"]["s"] != e["pre"]["s"] or e["res"] != "ok" or e["ret"]})
+        r2 = pipeline.run_judged(_random, rjobs, "J_KeyedSet", replay_fn=_replay, key_fn=_key, nontrivial_fn=_nontrivial, chunk=25000)
+        rep.mark("random")
+        res = {"ante": {k: r1["ante"].get(k, 0) + r2["ante"].get(k, 0) for k in set(r1["ante"]) | set(r2["ante"])}}
+        for clause, (replay, detail) in r1["bad"] + r2["bad"]:
+            rep.violation(clause, replay, detail)
         samples = [{k: e[k] for k in ("flavour", "cfg", "a", "res", "ret")} | {"pre": e["pre"]["s"], "post": e["post"]["s"]}
-                   for e in (events[11], events[len(events) // 2], events[-1])]
-        rep.add_events(len(events), distinct, samples)
-        rep.coverage.update({"table_events": n_table, "random_history_events": len(events) - n_table, "judge_antecedents": res["ante"],
+                   for e in (r1["samples"] + r2["samples"])[:3]]
+        rep.add_events(r1["n"] + r2["n"], r1["distinct"] + r2["distinct"], samples)
+        n_table, n_all = r1["n"], r1["n"] + r2["n"]
+        rep.coverage.update({"table_events": n_table, "random_history_events": n_all - n_table, "judge_antecedents": res["ante"],
                              "exhaustive": thorough,
                              "bounds": {"keys": nk, "max_len": ml, "payloads": 2, "operands": "<=2 items, KeyedSet (both enforce settings) and built-in set",
                                         "random": "<=10 keys, operands <=5 items, histories of 60 ops"}})
